@@ -13,7 +13,7 @@ def run(res, pool, tier, seed):
     q = tier == "quick"
     jobs = [dict(module="MC_Equi.tla", tag="equi", invariants=INVS, timeout=7200, batch=60,
                  constants=dict(KA=ALLK, KB=ALLK, BODIES={"tet2", "par", "ppyr", "cube", "hexObl"} if not q else {"tet2", "par", "ppyr"},
-                                SEED=seed % 1000, NSHARD=300 if q else 12))]
+                                SEED=seed % 1000, NSHARD=12 if q else 3, NSHARDT=48 if q else 12, NBORING=120 if q else 12))]
     engine.run_jobs(res, jobs, pool)
 
 
